@@ -1,6 +1,7 @@
 (* h_c05.ml — C05 handlers: Slice model (image of index/slice.hpp after the slice-arithmetic repair) vs Python's slice.indices.
    Case lines
      ax   S:<enc> I:<n> <start> <stop> <step>          one axis; parts N | I:v ; step may be O (2-part slice)
+     ex   S:<enc> I:<n> <start> <stop> <step>          the same with parts N | J:v (int64_t) | U:v (size_t)
      mx   S:<enc> S:<combo> L:<shape> <part> ...         index level, several axes
      vw   S:<enc> S:<combo> L:<shape> <part> ...         view level (elements of an iota array, X = access refused)
           part = S:i,<v> | S:e | S:r,<a>,<b>,<c>   with a,b in {N,int}, c in {N,O,int}
@@ -28,7 +29,7 @@ let two31 = pow2 (z_of_int 31)
 let two62 = pow2 (z_of_int 62)
 let s64 z = string_of_z (i64 z)        (* a size_t printed through (long long) *)
 
-let opt_part = function N -> None | I v -> Some v | Str "O" -> None | _ -> failwith "part"
+let opt_part = function N -> None | I v -> Some v | Str "O" -> None | Str s -> Some (z_of_string s) (* J:v int64_t, U:v size_t *) | _ -> failwith "part"
 let range_upto n = List.init (int_of_z n) z_of_int
 let sane l = zle z0 l && zle l cap
 
@@ -110,14 +111,16 @@ let rec axes_ok shape sls =
 let nonell sls = List.filter (fun s -> not (is_ell s)) sls
 let expand shape sls = py_expand (nat_of_int (List.length shape - List.length (nonell sls))) sls
 let () =
-  register "ax" (fun args -> match args with
+  let one_axis = (fun args -> match args with
     | [_; n; a; b; c] ->
         let n = getI n and a = opt_part a and b = opt_part b and c = opt_part c in
         let inq = step_ok c && zle z0 n in
         { model = ax_model n a b c;
           spec = if inq then ax_spec n a b c else "unspecified";
           dom = inq && axis_dom n a b c }
-    | _ -> failwith "ax");
+    | _ -> failwith "ax") in
+  register "ax" one_axis;      (* int-typed parts *)
+  register "ex" one_axis;      (* int64_t / size_t typed parts, extents up to 2^62-1 *)
   let multi fm fs = (fun args -> match args with
     | enc :: _ :: shape :: parts ->
         let variadic = (getS enc <> "dyn") in
